@@ -106,6 +106,18 @@ Theorem C15_nonfresh_id_refuted :
   mk_get w (0, 1%Z) = Some 0 /\ mk_get w (1, 1%Z) = Some 0.
 Proof. exact nonfresh_id_breaks_uniqueness. Qed.
 
+(* OUTSIDE the machine bound (ids < 2^64-1): in a build without overflow
+   checks `self.index = id + 1` wraps for id = 2^64-1; the counter restarts at
+   0 and the next mark repeats an id in use (reproduced on the real code, see
+   harness/src/bin/c15_u64_wrap.rs; a debug build panics instead) *)
+Theorem C15_u64_wrap_refuted :
+  let w0 := sl_run 3 sl_empty [SCreate false; SCreate false; SCreate false] in
+  let w1 := ma_mark_wrap w0 (0, 1%Z) None in
+  let w2 := ma_mark_wrap w1 (1, 1%Z) (Some (U64 - 1)) in
+  let w3 := ma_mark_wrap w2 (2, 1%Z) None in
+  mk_get w3 (0, 1%Z) = Some 0 /\ mk_get w3 (2, 1%Z) = Some 0 /\ sl_index w2 = 0 /\ sl_index w3 = 1.
+Proof. exact u64_wrap_breaks_uniqueness. Qed.
+
 (* non-vacuity: a history with deletion, index reuse, a stale mapping entry,
    a load mentioning an id above the counter and a forward reference *)
 Example C15_nonvacuous :
